@@ -746,3 +746,99 @@ impl<T> Iterator for RawDrain<'_, T> {
 
 impl<T> ExactSizeIterator for RawDrain<'_, T> {}
 impl<T> FusedIterator for RawDrain<'_, T> {}
+
+#[cfg(feature = "verif-hooks")]
+pub mod verif {
+    //! Read-only introspection of the backing tables for the verification harness.
+    extern crate alloc;
+    use alloc::vec::Vec;
+
+    /// Physical dump of one backing table.
+    #[derive(Clone, Debug, PartialEq, Eq, Hash)]
+    pub struct TableDump {
+        /// Number of buckets.
+        pub buckets: usize,
+        /// Number of elements.
+        pub len: usize,
+        /// Capacity as reported by hashbrown (`len + growth_left`).
+        pub capacity: usize,
+        /// Control byte per bucket (`>= 0x80` special, `< 0x80` full with tag).
+        pub ctrl: Vec<u8>,
+        /// Caller-supplied element id per bucket (`u64::MAX` if not full).
+        pub elems: Vec<u64>,
+    }
+
+    /// Physical dump of a griddle table: the main table, and the old one if a resize is pending.
+    #[derive(Clone, Debug, PartialEq, Eq, Hash)]
+    pub struct Dump {
+        /// The table receiving new elements.
+        pub main: TableDump,
+        /// The pre-resize table, if any.
+        pub old: Option<TableDump>,
+        /// `size_hint` of the cached iterator over the old table.
+        pub cursor_remaining: Option<usize>,
+        /// Bucket indices the cached iterator would yield
+        /// (only computed if `cursor_remaining` equals the old table's length).
+        pub cursor_yields: Option<Vec<usize>>,
+    }
+
+    /// The number of elements moved per insert.
+    pub const R: usize = super::R;
+}
+
+#[cfg(feature = "verif-hooks")]
+impl<T> RawTable<T> {
+    fn verif_table(t: &raw::RawTable<T>, id: &mut impl FnMut(&T) -> u64) -> verif::TableDump {
+        extern crate alloc;
+        let buckets = t.buckets();
+        let mut ctrl = alloc::vec::Vec::with_capacity(buckets);
+        let mut elems = alloc::vec::Vec::with_capacity(buckets);
+        unsafe {
+            let c = t.data_end().as_ptr() as *const u8;
+            for i in 0..buckets {
+                let b = *c.add(i);
+                ctrl.push(b);
+                if b & 0x80 == 0 && buckets > 1 {
+                    elems.push(id(t.bucket(i).as_ref()));
+                } else {
+                    elems.push(u64::MAX);
+                }
+            }
+        }
+        verif::TableDump {
+            buckets,
+            len: t.len(),
+            capacity: t.capacity(),
+            ctrl,
+            elems,
+        }
+    }
+
+    pub(crate) fn verif_dump(&self, mut id: impl FnMut(&T) -> u64) -> verif::Dump {
+        extern crate alloc;
+        let main = Self::verif_table(&self.table, &mut id);
+        let (old, cursor_remaining, cursor_yields) = match self.leftovers {
+            None => (None, None, None),
+            Some(ref lo) => {
+                let old = Self::verif_table(&lo.table, &mut id);
+                let rem = lo.items.size_hint().0;
+                let yields = if rem == lo.table.len() {
+                    let mut v = alloc::vec::Vec::new();
+                    for b in lo.items.clone() {
+                        v.push(unsafe { lo.table.bucket_index(&b) });
+                    }
+                    Some(v)
+                } else {
+                    None
+                };
+                (Some(old), Some(rem), yields)
+            }
+        };
+        verif::Dump {
+            main,
+            old,
+            cursor_remaining,
+            cursor_yields,
+        }
+    }
+}
